@@ -860,3 +860,261 @@ Proof.
   intros q g Hq. split; [apply zq_ab_action; exact Hq|]. split; [apply zphi_is_hom; exact Hq|].
   split; [apply zeqb_decides|]. intros x. apply zq_anchor. exact Hq.
 Qed.
+
+(* ====================================================================== *)
+(* integer powers in a commutative group, and the closed instance for the    *)
+(* Paillier-style homomorphism r |-> r^N on the units modulo M (M = N^2)      *)
+
+Section ZPow.
+  Variable G : Type.
+  Variable mul : G -> G -> G.
+  Variable inv : G -> G.
+  Variable one : G.
+  Variable npow : Z -> G -> G.   (* natural powers; only used with exponents >= 0 *)
+  Hypothesis mul_assoc : forall a b c, mul a (mul b c) = mul (mul a b) c.
+  Hypothesis mul_comm : forall a b, mul a b = mul b a.
+  Hypothesis mul_1_l : forall a, mul one a = a.
+  Hypothesis mul_inv_l : forall a, mul (inv a) a = one.
+  Hypothesis np_0 : forall x, npow 0 x = one.
+  Hypothesis np_1 : forall x, npow 1 x = x.
+  Hypothesis np_add : forall m n x, 0 <= m -> 0 <= n -> npow (m + n) x = mul (npow m x) (npow n x).
+  Hypothesis np_mul : forall m n x, 0 <= m -> 0 <= n -> npow (m * n) x = npow m (npow n x).
+  Hypothesis np_distr : forall n a b, 0 <= n -> npow n (mul a b) = mul (npow n a) (npow n b).
+
+  Definition zpow (n : Z) (x : G) : G := if 0 <=? n then npow n x else npow (- n) (inv x).
+
+  Let m1r := add_0_r G mul one mul_comm mul_1_l.
+  Let minvr := add_neg_r G mul inv one mul_comm mul_inv_l.
+  Let mcl := add_cancel_l G mul inv one mul_assoc mul_1_l mul_inv_l.
+  Let invu := neg_unique G mul inv one mul_assoc mul_comm mul_1_l mul_inv_l.
+  Let invinv := neg_neg G mul inv one mul_assoc mul_comm mul_1_l mul_inv_l.
+
+  Lemma np_one n : 0 <= n -> npow n one = one.
+  Proof.
+    intros Hn. apply (mcl (npow n one)). rewrite <- np_distr by exact Hn. rewrite mul_1_l, m1r. reflexivity.
+  Qed.
+
+  Lemma inv_one : inv one = one.
+  Proof. symmetry. apply invu. apply mul_1_l. Qed.
+
+  Lemma inv_mul a b : inv (mul a b) = mul (inv a) (inv b).
+  Proof.
+    symmetry. apply invu.
+    rewrite (mul_comm (inv a) (inv b)), mul_assoc, <- (mul_assoc a b (inv b)), minvr, m1r. apply minvr.
+  Qed.
+
+  Lemma np_inv n x : 0 <= n -> npow n (inv x) = inv (npow n x).
+  Proof.
+    intros Hn. apply invu. rewrite <- np_distr by exact Hn. rewrite minvr. apply np_one. exact Hn.
+  Qed.
+
+  (* x^m * (x^-1)^k with 0 <= k <= m *)
+  Lemma np_cancel m k x : 0 <= k -> k <= m -> mul (npow m x) (npow k (inv x)) = npow (m - k) x.
+  Proof.
+    intros Hk Hkm. replace m with ((m - k) + k) at 1 by lia.
+    rewrite np_add by lia. rewrite <- mul_assoc, <- np_distr by exact Hk.
+    rewrite minvr, np_one by exact Hk. apply m1r.
+  Qed.
+
+  Lemma zpow_add_mixed m k x : 0 <= m -> 0 < k ->
+    zpow (m + - k) x = mul (npow m x) (npow k (inv x)).
+  Proof.
+    intros Hm Hk. unfold zpow. destruct (0 <=? m + - k) eqn:E.
+    - apply Z.leb_le in E. rewrite np_cancel by lia. f_equal; lia.
+    - apply Z.leb_gt in E.
+      rewrite (mul_comm (npow m x)).
+      assert (H : npow m x = npow m (inv (inv x))) by (rewrite invinv; reflexivity).
+      rewrite H. rewrite np_cancel by lia. f_equal; lia.
+  Qed.
+
+  Theorem zpow_action : ab_action mul inv one zpow.
+  Proof.
+    unfold ab_action. repeat split; try assumption.
+    - (* (m+n) *)
+      intros m n x. destruct (Z_le_gt_dec 0 m) as [Hm|Hm], (Z_le_gt_dec 0 n) as [Hn|Hn].
+      + unfold zpow. replace (0 <=? m + n) with true by (symmetry; apply Z.leb_le; lia).
+        replace (0 <=? m) with true by (symmetry; apply Z.leb_le; lia).
+        replace (0 <=? n) with true by (symmetry; apply Z.leb_le; lia). apply np_add; assumption.
+      + replace n with (- (- n)) at 1 by lia. rewrite zpow_add_mixed by lia.
+        unfold zpow at 1 2. replace (0 <=? m) with true by (symmetry; apply Z.leb_le; lia).
+        replace (0 <=? n) with false by (symmetry; apply Z.leb_gt; lia). reflexivity.
+      + rewrite Z.add_comm, mul_comm. replace m with (- (- m)) at 1 by lia. rewrite zpow_add_mixed by lia.
+        unfold zpow at 1 2. replace (0 <=? n) with true by (symmetry; apply Z.leb_le; lia).
+        replace (0 <=? m) with false by (symmetry; apply Z.leb_gt; lia). reflexivity.
+      + unfold zpow. replace (0 <=? m + n) with false by (symmetry; apply Z.leb_gt; lia).
+        replace (0 <=? m) with false by (symmetry; apply Z.leb_gt; lia).
+        replace (0 <=? n) with false by (symmetry; apply Z.leb_gt; lia).
+        replace (- (m + n)) with (- m + - n) by lia. apply np_add; lia.
+    - (* (m*n) *)
+      intros m n x. destruct (Z_le_gt_dec 0 m) as [Hm|Hm], (Z_le_gt_dec 0 n) as [Hn|Hn].
+      + unfold zpow. replace (0 <=? m * n) with true by (symmetry; apply Z.leb_le; nia).
+        replace (0 <=? m) with true by (symmetry; apply Z.leb_le; lia).
+        replace (0 <=? n) with true by (symmetry; apply Z.leb_le; lia). apply np_mul; assumption.
+      + unfold zpow at 2 3. replace (0 <=? m) with true by (symmetry; apply Z.leb_le; lia).
+        replace (0 <=? n) with false by (symmetry; apply Z.leb_gt; lia).
+        destruct (Z.eq_dec m 0) as [->|Hm0].
+        * cbn [Z.mul]. unfold zpow. cbn. rewrite !np_0. reflexivity.
+        * unfold zpow. replace (0 <=? m * n) with false by (symmetry; apply Z.leb_gt; nia).
+          replace (- (m * n)) with (m * - n) by lia. apply np_mul; lia.
+      + unfold zpow at 2 3. replace (0 <=? m) with false by (symmetry; apply Z.leb_gt; lia).
+        replace (0 <=? n) with true by (symmetry; apply Z.leb_le; lia).
+        destruct (Z.eq_dec n 0) as [->|Hn0].
+        * rewrite Z.mul_0_r. unfold zpow. cbn. rewrite !np_0, inv_one. symmetry. apply np_one. lia.
+        * unfold zpow. replace (0 <=? m * n) with false by (symmetry; apply Z.leb_gt; nia).
+          replace (- (m * n)) with (- m * n) by lia. rewrite np_mul by lia. f_equal. apply np_inv. lia.
+      + unfold zpow at 2 3. replace (0 <=? m) with false by (symmetry; apply Z.leb_gt; lia).
+        replace (0 <=? n) with false by (symmetry; apply Z.leb_gt; lia).
+        unfold zpow. replace (0 <=? m * n) with true by (symmetry; apply Z.leb_le; nia).
+        replace (m * n) with (- m * - n) by lia. rewrite np_mul by lia. f_equal.
+        rewrite np_inv by lia. rewrite invinv. reflexivity.
+    - (* n (a*b) *)
+      intros n a b. unfold zpow. destruct (0 <=? n) eqn:E.
+      + apply Z.leb_le in E. apply np_distr. exact E.
+      + apply Z.leb_gt in E. rewrite inv_mul. apply np_distr. lia.
+  Qed.
+
+  (* in any commutative group with integer powers, x |-> x^N is a homomorphism compatible
+     with the powers, and u = x, l = N is an anchor for it *)
+  Theorem power_map_is_hom N : is_hom mul zpow mul zpow (zpow N).
+  Proof.
+    destruct zpow_action as (_ & _ & _ & _ & _ & Hm & _ & Hd). split.
+    - intros a b. apply Hd.
+    - intros n a. rewrite <- !Hm. f_equal; lia.
+  Qed.
+End ZPow.
+
+(* ---------- the units modulo M with their inverses (M = N^2 for Paillier) ---------- *)
+
+From Coq Require Import Zpow_facts.
+
+Section Units.
+  Variable M : Z.
+  Hypothesis M_pos : 0 < M.
+
+  (* a unit together with its inverse, both as canonical representatives *)
+  Record unit_m := mku {
+    uv : Z; ui : Z;
+    uok : ((uv mod M =? uv) && (ui mod M =? ui) && ((uv * ui) mod M =? 1 mod M)) = true }.
+
+  Lemma u_facts a : uv a mod M = uv a /\ ui a mod M = ui a /\ (uv a * ui a) mod M = 1 mod M.
+  Proof.
+    destruct a as [v i H]. cbn. apply andb_true_iff in H. destruct H as [H H3].
+    apply andb_true_iff in H. destruct H as [H1 H2].
+    rewrite Z.eqb_eq in H1, H2, H3. repeat split; assumption.
+  Qed.
+
+  Lemma u_eq a b : uv a = uv b -> a = b.
+  Proof.
+    intros Hv. destruct (u_facts a) as (_ & Ia & Pa). destruct (u_facts b) as (_ & Ib & Pb).
+    assert (Hi : ui a = ui b).
+    { rewrite <- Ia. rewrite <- (Z.mul_1_r (ui a)). rewrite <- Zmult_mod_idemp_r, <- Pb, Zmult_mod_idemp_r.
+      rewrite <- Hv. replace (ui a * (uv a * ui b)) with ((uv a * ui a) * ui b) by ring.
+      rewrite <- Zmult_mod_idemp_l, Pa, Zmult_mod_idemp_l, Z.mul_1_l. exact Ib. }
+    destruct a as [va ia Ha], b as [vb ib Hb]. cbn in Hv, Hi. subst vb ib.
+    f_equal. apply UIP_dec. apply Bool.bool_dec.
+  Qed.
+
+  Lemma mk_ok v i : (v * i) mod M = 1 mod M ->
+    (((v mod M) mod M =? v mod M) && ((i mod M) mod M =? i mod M) && (((v mod M) * (i mod M)) mod M =? 1 mod M)) = true.
+  Proof.
+    intros H. rewrite !Z.mod_mod by lia. rewrite !Z.eqb_refl. cbn [andb].
+    apply Z.eqb_eq. rewrite <- Zmult_mod. exact H.
+  Qed.
+
+  Lemma mul_ok a b : ((uv a * uv b) * (ui a * ui b)) mod M = 1 mod M.
+  Proof.
+    destruct (u_facts a) as (_ & _ & Pa). destruct (u_facts b) as (_ & _ & Pb).
+    replace (uv a * uv b * (ui a * ui b)) with ((uv a * ui a) * (uv b * ui b)) by ring.
+    rewrite Zmult_mod, Pa, Pb, <- Zmult_mod. reflexivity.
+  Qed.
+
+  Definition umul (a b : unit_m) : unit_m :=
+    mku ((uv a * uv b) mod M) ((ui a * ui b) mod M) (mk_ok _ _ (mul_ok a b)).
+
+  Lemma inv_ok a : (ui a * uv a) mod M = 1 mod M.
+  Proof. destruct (u_facts a) as (_ & _ & Pa). rewrite Z.mul_comm. exact Pa. Qed.
+
+  Definition uinv (a : unit_m) : unit_m :=
+    mku (ui a mod M) (uv a mod M) (mk_ok _ _ (inv_ok a)).
+
+  Lemma one_ok : (1 * 1) mod M = 1 mod M.
+  Proof. reflexivity. Qed.
+
+  Definition uone : unit_m := mku (1 mod M) (1 mod M) (mk_ok _ _ one_ok).
+
+  Lemma pow_ok a k : (uv a ^ Z.abs k * ui a ^ Z.abs k) mod M = 1 mod M.
+  Proof.
+    destruct (u_facts a) as (_ & _ & Pa).
+    rewrite <- Z.pow_mul_l. rewrite Zpower_mod by lia. rewrite Pa, <- Zpower_mod by lia.
+    rewrite Z.pow_1_l by lia. reflexivity.
+  Qed.
+
+  Definition unpow (k : Z) (a : unit_m) : unit_m :=
+    mku ((uv a ^ Z.abs k) mod M) ((ui a ^ Z.abs k) mod M) (mk_ok _ _ (pow_ok a k)).
+
+  Definition ueqb (a b : unit_m) : bool := uv a =? uv b.
+
+  Lemma ueqb_decides : decides_eq ueqb.
+  Proof. intros a b. unfold ueqb. rewrite Z.eqb_eq. split; [apply u_eq|intros ->; reflexivity]. Qed.
+
+  Lemma umul_assoc a b c : umul a (umul b c) = umul (umul a b) c.
+  Proof. apply u_eq. cbn. rewrite Zmult_mod_idemp_r, Zmult_mod_idemp_l. f_equal. ring. Qed.
+
+  Lemma umul_comm a b : umul a b = umul b a.
+  Proof. apply u_eq. cbn. f_equal. ring. Qed.
+
+  Lemma umul_1_l a : umul uone a = a.
+  Proof.
+    apply u_eq. cbn. rewrite Zmult_mod_idemp_l, Z.mul_1_l. apply (proj1 (u_facts a)).
+  Qed.
+
+  Lemma umul_inv_l a : umul (uinv a) a = uone.
+  Proof.
+    apply u_eq. cbn. rewrite Zmult_mod_idemp_l. apply inv_ok.
+  Qed.
+
+  Lemma unpow_0 a : unpow 0 a = uone.
+  Proof. apply u_eq. cbn [uv unpow uone]. change (Z.abs 0) with 0. rewrite Z.pow_0_r. reflexivity. Qed.
+
+  Lemma unpow_1 a : unpow 1 a = a.
+  Proof.
+    apply u_eq. cbn [uv unpow]. change (Z.abs 1) with 1. rewrite Z.pow_1_r. apply (proj1 (u_facts a)).
+  Qed.
+
+  Lemma unpow_add m n a : 0 <= m -> 0 <= n -> unpow (m + n) a = umul (unpow m a) (unpow n a).
+  Proof.
+    intros Hm Hn. apply u_eq. cbn [uv unpow umul]. rewrite !Z.abs_eq by lia.
+    rewrite Z.pow_add_r by lia. apply Zmult_mod.
+  Qed.
+
+  Lemma unpow_mul m n a : 0 <= m -> 0 <= n -> unpow (m * n) a = unpow m (unpow n a).
+  Proof.
+    intros Hm Hn. apply u_eq. cbn [uv unpow]. rewrite !Z.abs_eq by nia.
+    rewrite <- Zpower_mod by lia. rewrite Z.mul_comm, Z.pow_mul_r by lia. reflexivity.
+  Qed.
+
+  Lemma unpow_distr n a b : 0 <= n -> unpow n (umul a b) = umul (unpow n a) (unpow n b).
+  Proof.
+    intros Hn. apply u_eq. cbn [uv unpow umul]. rewrite !Z.abs_eq by lia.
+    rewrite <- Zpower_mod by lia. rewrite Z.pow_mul_l. apply Zmult_mod.
+  Qed.
+
+  Definition upow : Z -> unit_m -> unit_m := zpow unit_m uinv unpow.
+
+  (* the closed instance: the units modulo M under multiplication with integer powers are an
+     abelian group with an integer action; r |-> r^N is a homomorphism compatible with it;
+     equality is decided; and (u = x, l = N) is an anchor: phi(x) = x^N = N "times" x *)
+  Theorem units_power_instance : forall N : Z,
+    ab_action umul uinv uone upow /\
+    is_hom umul upow umul upow (upow N) /\
+    decides_eq ueqb /\
+    forall x, upow N ((fun y => y) x) = upow N x.
+  Proof.
+    intros N.
+    pose proof (zpow_action unit_m umul uinv uone unpow umul_assoc umul_comm umul_1_l umul_inv_l
+                  unpow_0 unpow_1 unpow_add unpow_mul unpow_distr) as A.
+    pose proof (power_map_is_hom unit_m umul uinv uone unpow umul_assoc umul_comm umul_1_l umul_inv_l
+                  unpow_0 unpow_1 unpow_add unpow_mul unpow_distr N) as Hh.
+    split; [exact A|]. split; [exact Hh|]. split; [exact ueqb_decides|]. reflexivity.
+  Qed.
+End Units.
